@@ -11,9 +11,14 @@ static const char* const ep_name[EP_NB] = { "compress", "compressCCtx", "compres
 static void run_case(long idx)
 {
     vrng r = vr_make(V.seed, 101, (uint64_t)idx);
-    int const fam = (int)vr_u(&r, DF_NB);
-    size_t const n = pick_size(&r, g_maxSize);
+    int fam = (int)vr_u(&r, DF_NB);
+    size_t n = pick_size(&r, g_maxSize);
     int ep = (int)vr_u(&r, EP_NB + 3); if (ep >= EP_NB) ep = EP_COMPRESS2;   /* compress2 carries the parameter space */
+    /* stratum "sub-blocks": every 8th case is a multi-block input with targetCBlockSize on and data whose blocks mix
+     * compressible and incompressible stretches (state carried from one block to the next: repcodes, entropy tables) */
+    int const sbStratum = (idx % 8) == 7;
+    if (sbStratum) { static const int fams[] = { DF_REPBAIT, DF_REPBAIT, DF_ISLANDS, DF_MIX, DF_LZ, DF_LONGREP }; fam = fams[vr_u(&r, 6)];
+        ep = EP_COMPRESS2; size_t const two = (256u << 10) + 1 + vr_u(&r, 40000); n = two <= g_maxSize ? two + vr_u64(&r, g_maxSize - two + 1) : g_maxSize; }
     gbuf src = gb_alloc(n, (int)vr_u(&r, 2));
     gen_data(&r, src.p, n, fam);
     size_t const bound = ZSTD_compressBound(n);
@@ -58,6 +63,8 @@ static void run_case(long idx)
     case EP_COMPRESS2_DICT:
     case EP_COMPRESS2: default:
         vp_random(&r, &P, VP_MAGICLESS | (V.thorough ? VP_BIG : 0) | (n > (1u << 20) && vr_chance(&r, 1, 2) ? VP_MT : 0));
+        if (sbStratum && !P.targetCBlockSize) { P.targetCBlockSize = (int)vr_range(&r, 1340, vr_chance(&r, 1, 2) ? 4000 : 20000); vp_add(&P, ZSTD_c_targetCBlockSize, P.targetCBlockSize);
+            size_t const o = strlen(P.desc); snprintf(P.desc + o, sizeof P.desc - o, ",%d=%d", (int)ZSTD_c_targetCBlockSize, P.targetCBlockSize); }
         if (P.windowLog > 24 && !vr_chance(&r, 1, 8)) { skipped = 1; break; }   /* keep the memory-hungry ones rare */
         if (ZSTD_isError(vp_apply(cctx, &P))) { skipped = 1; v_stat("params_rejected", 1); break; }
         magicless = P.magicless; level = P.level;
